@@ -291,6 +291,31 @@ def c04_around_text_gap(f, replay):
     return not py_around_guards(doc, step)[0]
 
 
+def partial_node_class(sl):
+    """is there a non-leaf node N on the slice's end spine (within open_end) whose children are not a matchable beginning
+    of N's content expression — as they stand, or, when N is on the start spine too (open_start reaches below it) and has
+    at least two children, with the start-open first child taken apart?  The class of the finding
+    C11-fitter-partial-node; lean/PM/Fitter.lean `partialNodeOn` is the same walk (compared exactly by
+    harness/rangeplan.py `tie_fit_guards`), its negation the guard `Slice.noPartialNode` of Props/C11.lean."""
+    frag, b, a, on_start = sl.content, sl.open_end, sl.open_start, True
+    while b > 0 and frag.child_count >= 1:
+        node = frag.last_child
+        if node.is_leaf:
+            return False
+        on_start = on_start and a > 0 and frag.child_count == 1
+        kids = [node.child(i) for i in range(node.child_count)]
+        # as it stands, and with the start-open first child taken apart (only when N is on the start spine too)
+        variants = [kids] + ([kids[1:]] if on_start and a > 1 and len(kids) >= 2 else [])
+        for ks in variants:
+            m = node.type.content_match
+            for k in ks:
+                m = m.match_type(k.type) if m is not None else None
+            if m is None:
+                return True
+        frag, b, a = node.content, b - 1, a - 1
+    return False
+
+
 def c11_fitter_partial_node(f, replay):
     """C11 open finding: the Fitter raises ValueError("Called contentMatchAt on a node with invalid content") from
     place_nodes when a node N on the slice's *end* spine (within open_end) has children that are not a matchable beginning
@@ -311,24 +336,7 @@ def c11_fitter_partial_node(f, replay):
         sls.append(replay["slice"])
     if not sls:
         return False
-    sl = Slice.from_json(schema, sls[0])
-    frag, b, a, on_start = sl.content, sl.open_end, sl.open_start, True
-    while b > 0 and frag.child_count >= 1:
-        node = frag.last_child
-        if node.is_leaf:
-            return False
-        on_start = on_start and a > 0 and frag.child_count == 1
-        kids = [node.child(i) for i in range(node.child_count)]
-        # as it stands, and with the start-open first child taken apart (only when N is on the start spine too)
-        variants = [kids] + ([kids[1:]] if on_start and a > 1 and len(kids) >= 2 else [])
-        for ks in variants:
-            m = node.type.content_match
-            for k in ks:
-                m = m.match_type(k.type) if m is not None else None
-            if m is None:
-                return True
-        frag, b, a = node.content, b - 1, a - 1
-    return False
+    return partial_node_class(Slice.from_json(schema, sls[0]))
 
 
 
